@@ -236,6 +236,7 @@ def main():
     ap.add_argument("--workers", type=int, default=5)
     ap.add_argument("--jobs", type=int, default=3)
     ap.add_argument("--seed", type=int, default=0)
+    ap.add_argument("--recheck", action="store_true", help="with --phase checks: run the survivors no check caught so far again")
     ap.add_argument("--phase", default="all", choices=["tests", "checks", "all"], help="tests: only the repository's tests; checks: only survivors recorded by an earlier 'tests' run")
     ap.add_argument("--out", default=os.path.join(VERIF, "mutants", "MUTATION_AUDIT.json"))
     args = ap.parse_args()
@@ -261,7 +262,7 @@ def main():
     if os.path.exists(args.out):
         prev = {r["id"]: r for r in json.load(open(args.out)).get("mutants", [])}
     if args.phase == "checks":
-        todo = [m for m in todo if prev.get(m["id"], {}).get("survives_repo_tests") and "checks" not in prev[m["id"]]]
+        todo = [m for m in todo if prev.get(m["id"], {}).get("survives_repo_tests") and ("checks" not in prev[m["id"]] or (args.recheck and not prev[m["id"]].get("caught_by")))]
         print(f"{len(todo)} survivors to run against the checks", flush=True)
     t0 = time.time()
 
